@@ -226,6 +226,50 @@ func CallGuarded(vt *VT, method string, b, sp []byte, shape bool) string {
 	return Call(vt, method, mkView(b, sp), shape)
 }
 
+// copied bytes: x<hex>, an empty one is e
+func fx(b []byte) string {
+	if len(b) == 0 {
+		return "e"
+	}
+	return "x" + hx(b)
+}
+
+func tf(b bool) string {
+	if b {
+		return "T"
+	}
+	return "F"
+}
+
+// fmtNewOptions prints the decoded NDP options: [mtu,[prefixes],[rdnss lifetime,[servers]],slla,tlla,
+// [dnssl lifetime,[domain names as bytes]],[route prefix length,preference,lifetime,prefix]];
+// a prefix is [length,on-link,autonomous,valid seconds,preferred seconds,prefix]; lifetimes in seconds.
+func fmtNewOptions(o packet.NewOptions) string {
+	sec := func(d time.Duration) string { return fmt.Sprint(int64(d / time.Second)) }
+	var pf []string
+	for _, p := range o.Prefixes {
+		pf = append(pf, "["+strings.Join([]string{fmt.Sprint(p.PrefixLength), tf(p.OnLink), tf(p.AutonomousAddressConfiguration),
+			sec(p.ValidLifetime), sec(p.PreferredLifetime), fx(p.Prefix)}, ",")+"]")
+	}
+	var sv []string
+	for _, s := range o.RDNSS.Servers {
+		sv = append(sv, fx(s))
+	}
+	var dn []string
+	for _, d := range o.DNSSearchList.DomainNames {
+		dn = append(dn, fx([]byte(d)))
+	}
+	r := o.RouteInformation
+	return "[" + strings.Join([]string{
+		fmt.Sprint(uint32(o.MTU)),
+		"[" + strings.Join(pf, ",") + "]",
+		"[" + sec(o.RDNSS.Lifetime) + ",[" + strings.Join(sv, ",") + "]]",
+		fx(o.SourceLLA.MAC), fx(o.TargetLLA.MAC),
+		"[" + sec(o.DNSSearchList.Lifetime) + ",[" + strings.Join(dn, ",") + "]]",
+		"[" + strings.Join([]string{fmt.Sprint(r.PrefixLength), fmt.Sprint(int(r.Preference)), sec(r.RouteLifetime), fx(r.Prefix)}, ",") + "]",
+	}, ",") + "]"
+}
+
 // Call runs one zero-argument method of the view under recover.
 func Call(vt *VT, method string, v []byte, shape bool) (obs string) {
 	defer func() {
@@ -262,12 +306,24 @@ func Call(vt *VT, method string, v []byte, shape bool) (obs string) {
 		if len(out) == 1 {
 			return "ok"
 		}
+		if o, isOpt := out[0].Interface().(packet.NewOptions); isOpt {
+			if shape {
+				return "ok"
+			}
+			return fmtNewOptions(o)
+		}
 		if out[0].Kind() == reflect.Map && out[0].Len() == 0 || out[0].Kind() == reflect.Struct {
 			return "ok"
 		}
 	}
-	return fmtVal(method, out[0], shape, base, cap(v))
+	obs = fmtVal(method, out[0], shape, base, cap(v))
+	if shape && strings.HasPrefix(obs, "[") && !rangeRe.MatchString(obs) {
+		return "ok" // a list / map that holds no range into the view
+	}
+	return obs
 }
+
+var rangeRe = regexp.MustCompile(`r[0-9]`)
 
 // Methods lists the exported zero-argument methods other than IsValid (reflection order = sorted).
 func Methods(vt *VT) []string {
